@@ -10,6 +10,7 @@ package main
 //   F  start element "entry" whose DecodeElement hits a syntax error (sticky)
 //   S  some other start element        T  some other token (character data)
 //   X  syntax error returned by Token (sticky)
+//   A  a bare '&' between elements: a syntax error in strict mode (the default), character data otherwise
 //   Z  the reader fails with io.ErrUnexpectedEOF (truncated compressed stream; sticky)
 //   end of script: io.EOF
 
@@ -22,6 +23,7 @@ import (
 type xmlScript struct{ events string }
 
 type xmlDecoder struct {
+	cell   *Value
 	events string
 	pos    int
 	sticky Value // Iface error once damaged
@@ -53,10 +55,60 @@ func init() {
 			panic(unsupported("xml.NewDecoder on a reader that is not an event script"))
 		}
 		p.stubsHit["encoding/xml.Decoder (event script with sticky syntax errors; entry content not modelled)"] = true
-		return &Native{V: &xmlDecoder{events: sc.events}}
+		// the decoder is a cell holding a zero xml.Decoder struct (so that exported fields such as
+		// Strict can be assigned); the stub state lives in the side table
+		dt := p.w.eng.namedType("encoding/xml", "Decoder")
+		cell := new(Value)
+		*cell = zero(dt)
+		st := dt.Underlying().(*types.Struct)
+		for i := 0; i < st.NumFields(); i++ {
+			if st.Field(i).Name() == "Strict" {
+				(*cell).(Struct)[i] = true
+			}
+		}
+		p.side[cell] = &xmlDecoder{cell: cell, events: sc.events}
+		return cell
+	}
+	decoderOf := func(p *Path, v Value) *xmlDecoder {
+		c, ok := v.(*Value)
+		if !ok || c == nil {
+			panic(unsupported("xml.Decoder that was not created by xml.NewDecoder on an event script"))
+		}
+		d, ok := p.side[c].(*xmlDecoder)
+		if !ok {
+			panic(unsupported("xml.Decoder that was not created by xml.NewDecoder on an event script"))
+		}
+		return d
+	}
+	strictOf := func(p *Path, d *xmlDecoder) bool {
+		st := p.w.eng.namedType("encoding/xml", "Decoder").Underlying().(*types.Struct)
+		for i := 0; i < st.NumFields(); i++ {
+			if st.Field(i).Name() == "Strict" {
+				b, _ := (*d.cell).(Struct)[i].(bool)
+				return b
+			}
+		}
+		return true
+	}
+	// a *xml.SyntaxError value, so that type assertions and the real Error method work
+	syntaxErr := func(p *Path, msg string) Value {
+		et := p.w.eng.namedType("encoding/xml", "SyntaxError")
+		c := new(Value)
+		s := zero(et).(Struct)
+		st := et.Underlying().(*types.Struct)
+		for i := 0; i < st.NumFields(); i++ {
+			switch st.Field(i).Name() {
+			case "Msg":
+				s[i] = msg
+			case "Line":
+				s[i] = int64(1)
+			}
+		}
+		*c = s
+		return Iface{T: types.NewPointer(et), V: c}
 	}
 	models["(*encoding/xml.Decoder).Token"] = func(p *Path, fn *ssa.Function, a []Value) Value {
-		d := a[0].(*Native).V.(*xmlDecoder)
+		d := decoderOf(p, a[0])
 		d.calls++
 		if d.sticky != nil {
 			return Tuple{Iface{}, d.sticky}
@@ -83,18 +135,25 @@ func init() {
 			d.sticky = Iface{T: nativeErrorType, V: ioErrUnexpectedEOF}
 			return Tuple{Iface{}, d.sticky}
 		case 'X':
-			d.sticky = Iface{T: nativeErrorType, V: &errVal{msg: "XML syntax error on line 1: unexpected EOF"}}
+			d.sticky = syntaxErr(p, "unexpected EOF")
 			return Tuple{Iface{}, d.sticky}
+		case 'A':
+			// a bare '&' in character data: a syntax error only in strict mode
+			if strictOf(p, d) {
+				d.sticky = syntaxErr(p, "invalid character entity & (no semicolon)")
+				return Tuple{Iface{}, d.sticky}
+			}
+			return Tuple{Iface{T: eng.namedType("encoding/xml", "CharData"), V: Slice{A: []Value{int64('&')}}}, Iface{}}
 		}
 		panic(unsupported("xml event %q", ev))
 	}
 	models["(*encoding/xml.Decoder).DecodeElement"] = func(p *Path, fn *ssa.Function, a []Value) Value {
-		d := a[0].(*Native).V.(*xmlDecoder)
+		d := decoderOf(p, a[0])
 		if d.sticky != nil {
 			return d.sticky
 		}
 		if d.cur == 'F' {
-			d.sticky = Iface{T: nativeErrorType, V: &errVal{msg: "XML syntax error on line 1: element <entry> closed by </uniprot>"}}
+			d.sticky = syntaxErr(p, "element <accession> closed by </oops>")
 			return d.sticky
 		}
 		// stamp the ordinal of the entry into its Version field so that order can be observed
